@@ -264,24 +264,6 @@ func runC02(c *Ctx) {
 
 	// R2
 	c.handlerFrameRule("R2")
-	if hook := c.Func(c.Client, "(*Conn).LogPanic"); hook != nil {
-		// no interface method is invoked on the recovered value
-		bad := ""
-		funcInstrs(hook, func(in ssa.Instruction) {
-			cs, ok := in.(ssa.CallInstruction)
-			if !ok || !cs.Common().IsInvoke() {
-				return
-			}
-			for _, o := range c.originsThroughAsserts(cs.Common().Value) {
-				if call, ok := o.(*ssa.Call); ok {
-					if b, ok := call.Call.Value.(*ssa.Builtin); ok && b.Name() == "recover" {
-						bad = c.InstrPos(in)
-					}
-				}
-			}
-		})
-		r.Add("R2", "hook-no-callback", c.Pos(hook.Pos()), c.FuncKey(hook), "the default hook does not invoke methods of the recovered value itself (a panicking Error()/String() would escape the hook)", bad == "", "method of the recovered value invoked at "+bad)
-	}
 
 	// R3
 	var producer *ssa.Function
